@@ -1,8 +1,10 @@
 """Property id -> check function(prop, tier, replay) -> exit code."""
-from .checks import roundtrip, perturbed
+from .checks import roundtrip, perturbed, expr, lifecycle
 
 CHECKS = {}
 for _p in ("C01", "C02", "C10", "C17", "C18"):
     CHECKS[_p] = roundtrip.run
 for _p in ("C07", "C08", "C11", "C13", "C14", "C15"):
     CHECKS[_p] = perturbed.run
+CHECKS["C03"] = expr.run
+CHECKS["C09"] = lifecycle.run
